@@ -839,3 +839,47 @@ def r_slack(db, rep):
                  "when the buffer is filled to the guard's limit the last %d byte(s) land past textStrings" % (
                      canon(slack), worst[3], worst[1], worst[2], worst[0]), c.qn,
                  {"slack": canon(slack), "witness_len": worst[1], "witness_lcp": worst[2], "extent": worst[3]})
+
+
+@rule("R-VBYTE", 4, "variable-byte codec: encoder and decoder (VByte::encode/decode and the encodeVB2/decodeVB2 copies) agree on the group "
+                    "width, the payload mask and the terminator bit: mask = 2^shift - 1, flag = 2^shift, threshold = mask")
+def r_vbyte(db, rep):
+    groups = [("VByte::encode", "VByte::decode"), ("encodeVB2", "decodeVB2")]
+    for en, dn in groups:
+        enc, dec = db.fn(en), db.fn(dn)
+        consts = {}
+        for role, f in (("enc", enc), ("dec", dec)):
+            rep.visit(f)
+            shifts, masks, flags, thresh = set(), set(), set(), set()
+            for n in f.live_nodes():
+                if n["k"] in ("BinaryOperator", "CompoundAssignOperator"):
+                    op = n["op"]
+                    cv = const_value(n["rhs"])
+                    if op in (">>=", "<<=") and cv is not None:
+                        shifts.add(cv)
+                    if op == "+=" and cv is not None and access_path(f, n["lhs"]) is not None and "shift" in str(strip(n["lhs"]).get("n", "")):
+                        shifts.add(cv)
+                    if op == "&" and cv is not None:
+                        (flags if cv & (cv - 1) == 0 else masks).add(cv)
+                    if op == "|" and cv is not None:
+                        flags.add(cv)
+                    if op == ">" and cv is not None:
+                        thresh.add(cv)
+            consts[role] = (shifts, masks, flags, thresh)
+            rep.inst(f.loc, "%s: shift %s mask %s flag %s threshold %s" % (f.qn, sorted(shifts), sorted(masks), sorted(flags), sorted(thresh)))
+        es, em, ef, et = consts["enc"]
+        ds, dm, df, dt = consts["dec"]
+        rep.ob()
+        problems = []
+        if len(es) != 1 or es != ds:
+            problems.append("group widths differ (encoder shifts by %s, decoder by %s)" % (sorted(es), sorted(ds)))
+        else:
+            w = next(iter(es))
+            if em != {(1 << w) - 1} or dm != {(1 << w) - 1}:
+                problems.append("payload mask is not 2^%d-1 on both sides (encoder %s, decoder %s)" % (w, sorted(em), sorted(dm)))
+            if ef != {1 << w} or df != {1 << w}:
+                problems.append("terminator bit is not 2^%d on both sides (encoder %s, decoder %s)" % (w, sorted(ef), sorted(df)))
+            if et != {(1 << w) - 1}:
+                problems.append("continuation threshold is %s, not 2^%d-1" % (sorted(et), w))
+        for i, pr in enumerate(problems):
+            rep.viol("%s<->%s#%d" % (en, dn, i), enc.loc, "%s / %s: %s: some values do not decode to what was encoded" % (en, dn, pr), enc.qn)
